@@ -26,7 +26,7 @@ theorem writeGeneric_rows (cfg : Cfg) (x : M) (t r : Str) (hb : x.buf = []) (hm 
     ∃ rows, timeline (writeGeneric cfg x t r) = timeline x ++ rows ∧ ∀ row ∈ rows, row.src = x.n := by
   unfold writeGeneric
   split
-  · exact ⟨[], by simp, by simp⟩
+  · exact ⟨[], by simp [timeline], by simp⟩
   · refine ⟨(if cfg.colorOnly then [] else [{ kind := .blank, text := [], src := x.n }]) ++
         drawRows cfg.fileStyle .file t r x.modeInfo x.n, ?_, ?_⟩
     · show timeline (direct x _) = timeline x ++ _
